@@ -169,6 +169,7 @@ class FnSpec:
         self.opts = opts
         self.lineno = lineno
         self.contract = []
+        self.twinreq = []
         self.entry = []
         self.valid = None
         self.panic_state = None
@@ -283,6 +284,10 @@ class Generator:
                     spec.panic_state = spec.panic_state.replace("old(self)", "__s0")
                     spec.entry.insert(0, "        let ghost __s0 = *self;")
                 cur = None
+            elif s.startswith("//@twinreq"):
+                # preconditions stated on the free twin only (an impl of an external trait cannot carry
+                # `requires`): the in-trait copy's ensures must be guarded by the same condition
+                cur = spec.twinreq
             elif s.startswith("//@contract"):
                 cur = spec.contract
             elif s.startswith("//@entry"):
@@ -385,6 +390,10 @@ class Generator:
         import copy
         saved = (len(self.out), len(self.fns), len(self.pending_free), dict(self.rewrites))
         try:
+            forced = getattr(self, "force_degrade", {}).get((spec.file, spec.container, spec.name))
+            if forced and not getattr(spec, "_is_free_copy", False):
+                # the verifier rejected a construct inside this function on a previous attempt
+                raise ExtractError("unsupported construct: %s" % forced)
             if spec.opts.get("free") and not getattr(spec, "_is_free_copy", False):
                 return self.emit_fn_with_free_twin(copy.deepcopy(spec))
             return self.emit_fn_inner(copy.deepcopy(spec))
@@ -472,6 +481,10 @@ class Generator:
                 text = re.sub(r"\bSelf::Item\b", "<%s as Iterator>::Item" % selfty_txt, text)
                 return re.sub(r"\bSelf\b", selfty_txt, text)
             return re.sub(r"\bSelf\b", "X", text)
+        if is_free and spec.twinreq:
+            self.emit("        requires")
+            for ln in spec.twinreq:
+                self.emit(fr(ln))
         for ln in spec.contract:
             self.emit(fr(ln))
         if it.body_open is None or spec.sig_only:
@@ -948,11 +961,14 @@ class Generator:
         if p >= 0 and body[p].text == ".":
             e = p
             b = prev_code(body, p)
+            first = b
             while b >= 0 and (body[b].kind == "ident" or body[b].text in (".",)):
+                first = b
                 nb = prev_code(body, b)
-                if body[b].kind == "ident" and nb >= 0 and body[nb].text not in (".",):
+                if body[b].kind == "ident" and (nb < 0 or body[nb].text not in (".",)):
                     break
                 b = nb
+            b = first
             recv = text_of(body[b:e]).strip()
             start = b
         tpl = "\n".join(lines).strip("\n")
@@ -1174,8 +1190,9 @@ def tight(s):
     return s.strip()
 
 
-def generate(template, repo_src, out_path):
+def generate(template, repo_src, out_path, force_degrade=None):
     g = Generator(repo_src)
+    g.force_degrade = dict(force_degrade or {})
     g.process_template(template)
     text, linemap = g.result()
     os.makedirs(os.path.dirname(out_path), exist_ok=True)
